@@ -124,3 +124,9 @@ Theorem union_leaves : forall cus, Forall (Forall valid) cus ->
   forall x, leaf x -> (cov (cu_FromUnion cus) x <-> exists cu, In cu cus /\ cov cu x).
 Proof. exact C11_SetOps.union_spec. Qed.
 Print Assumptions union_leaves.
+
+Theorem difference_leaves : forall x y, sorted_cu x -> sorted_cu y ->
+  sorted_cu (cu_FromDifference x y) /\
+  forall t, leaf t -> (cov (cu_FromDifference x y) t <-> cov x t /\ ~ cov y t).
+Proof. exact C11_SetOps.difference_spec. Qed.
+Print Assumptions difference_leaves.
